@@ -9,7 +9,7 @@ PY = "/venv/bin/python"
 CHECKS = {
     "C01": ("exploration", "bex", "bounded exhaustive enumeration of inputs on the real code vs a bin-by-bin reference model",
             "Every assignment of a small value alphabet to every bin of every small grid (full products up to 8/9 cells, complete "
-            "structured families to 40 cells) x grid families (full circles and uniformly spaced sectors, also straddling north) x layouts x dtypes is run through the real accessor and compared with "
+            "structured families to 40 cells, also at centimetre/millimetre and extreme energy scales) x grid families (full circles and uniformly spaced sectors, also straddling north) x layouts x dtypes is run through the real accessor and compared with "
             "an independent plain-loop evaluation of each defining integral; bounded-exhaustive, not sampled.",
             "Values outside the alphabets and grids beyond the cell bound are not covered; integrals are linear in E so the impulse "
             "basis+pairs decide them per grid. dm accepts either moment convention consistently. numpy/xarray are trusted.",
